@@ -90,6 +90,24 @@ def _deodd(rec):
           'kw': {k: f(v) for k, v in rec['kw'].items()}}
 
 
+POISON = '<<POISON>>'
+
+
+class _Boom(Exception):
+  pass
+
+
+def _boom():
+  raise _Boom('evaluated although the caller supplied the parameter')
+
+
+def _plain(x):
+  """Replaces reference objects (the poison binding) by the POISON token."""
+  if isinstance(x, dict):
+    return {k: _plain(v) for k, v in x.items()}
+  return POISON if isinstance(x, gin.config.ConfigurableReference) else x
+
+
 def _probe_call(built, args, kwargs):
   return built.call(args, kwargs)
 
@@ -120,6 +138,15 @@ def check_case(case):
         gin.parse_config(f'{key}:\n  {param} = {value!r}\n')
       model[(scope, param)] = value
       labels.add('bind:' + api)
+    if case.get('poison'):
+      # one parameter is bound to an evaluated reference that cannot be evaluated: harmless as long
+      # as the caller supplies that parameter (Gin has no business evaluating a value it will not
+      # pass), fatal for a call that relies on it
+      gin.external_configurable(_boom, name='c01_boom', module='c01poison')
+      scope, param = case['poison']
+      gin.parse_config(f"{scope + '/' if scope else ''}{sel_full}.{param} = @c01_boom()")
+      model[(scope, param)] = POISON
+      labels.add('poison-binding')
   if case.get('bind_ambient'):
     labels.add('bindings-made-inside-a-scope')
 
@@ -148,12 +175,15 @@ def check_case(case):
 
     # get_bindings under the active scope == overlay; strict == exact scope only
     target = sel_full if shape['kind'] == 'method' else (built.cls or built.original)
-    got = gin.get_bindings(target)
-    require(got == applicable, 'get_bindings',
-            lambda: f'active={active} got={got} model={applicable} bindings={sorted(model)}')
-    got = gin.get_bindings(sel_full, inherit_scopes=False)
-    require(got == M.exact(model, '/'.join(active)), 'get_bindings-strict',
-            lambda: f'active={active} got={got} model={M.exact(model, "/".join(active))}')
+    # (get_bindings hands out a deep copy, which *evaluates* evaluated references: it is not
+    # asked about a configuration holding the poison reference)
+    if not case.get('poison'):
+      got = gin.get_bindings(target)
+      require(got == applicable, 'get_bindings',
+              lambda: f'active={active} got={got} model={applicable} bindings={sorted(model)}')
+      got = gin.get_bindings(sel_full, inherit_scopes=False)
+      require(got == M.exact(model, '/'.join(active)), 'get_bindings-strict',
+              lambda: f'active={active} got={got} model={M.exact(model, "/".join(active))}')
 
     if case.get('finalize'):
       gin.finalize()
@@ -194,16 +224,32 @@ def check_case(case):
           labels.add('caller-value-with-odd-eq')
         verdict, exp = M.expected_call(sig, args, kwargs, app)
         n_before = len(built.log)
+        relied_on = [p for p, v in app.items() if v == POISON and p not in kwargs and
+                     p not in M.positional_names(sig, len(args))]
         try:
           rec = _probe_call(built, args, kwargs)
           raised = None
         except TypeError as e:
           raised = e
+        except _Boom as e:
+          require(relied_on, 'binding-evaluated-although-caller-supplied-the-parameter',
+                  lambda: f'{e}\nargs={args} kwargs={kwargs} applicable={app} scope={act}')
+          require(len(built.log) == n_before, 'body-ran-despite-failed-reference', '')
+          labels.add('call:poison-relied-on')
+          if extra_entry is not None:
+            stack.exit()
+          continue
         except ValueError as e:
           if 'truth value' not in str(e):
             raise
           raise Violation('caller-value-compared', f'Gin used == / bool() on a caller value: {e}\n'
                           f'args={args} kwargs={kwargs} applicable={app}')
+        if relied_on:
+          require(raised is not None and verdict == 'TypeError', 'unevaluable-reference-ignored',
+                  lambda: f'{relied_on} bound to @c01_boom() and not supplied, yet the call '
+                          f'returned {rec}')
+        elif any(v == POISON for v in app.values()):
+          labels.add('call:poison-overridden-by-caller')
         if verdict == 'TypeError':
           require(raised is not None, 'typeerror-expected',
                   lambda: f'Python cannot bind this call ({exp}) but Gin delivered {rec}')
@@ -324,7 +370,11 @@ def strategy(draw):
     if j > 0 and draw(st.integers(0, 2)) == 0:
       call['rebind'] = [draw(st.integers(0, 11)), j, draw(st.booleans())]
     calls.append(call)
+  poison = None
+  if pool and draw(st.integers(0, 3)) == 0:
+    poison = [draw(scope_st), draw(st.sampled_from([focus]) | st.sampled_from(pool))]
   return {'shape': shape, 'entries': entries, 'bindings': bindings, 'calls': calls,
+          'poison': poison,
           'finalize': draw(st.integers(0, 2)) == 0,
           'bind_ambient': draw(st.sampled_from(['', '', 's', 'zz/t'])),
           'failed_entry': draw(st.integers(0, 3)) == 0}
